@@ -74,9 +74,35 @@ def gen_probe(root):
             lines.append(f"        let b = {expr};")
             lines.append(f'        brow("{fl}", "{what}", (&Wrap(&b)).is_send(), (&Wrap(&b)).is_sync());')
             lines.append("    }")
+    # what the construction macros return: a graph of the flavour they are named after (value probe again; a macro
+    # arm that hands back another flavour's type under the sync name would be neither Send nor Sync)
+    for fl in FLS:
+        for what, expr in macro_exprs(fl):
+            lines.append("    {")
+            lines.append("        use gdsl::*;")
+            lines.append(f"        let g = {expr};")
+            lines.append(f'        let n = g.get(&0);')
+            lines.append(f'        println!("M {fl} {what} send={{}} sync={{}} node_send={{}} node_sync={{}}", (&Wrap(&g)).is_send() as u8, (&Wrap(&g)).is_sync() as u8, (&Wrap(&n)).is_send() as u8, (&Wrap(&n)).is_sync() as u8);')
+            lines.append("    }")
     lines.append("}")
     os.makedirs(os.path.join(root, "probes", "src"), exist_ok=True)
     open(os.path.join(root, "probes", "src", "main.rs"), "w").write("\n".join(lines) + "\n")
+
+
+def macro_exprs(fl):
+    return [("form1", f"{fl}![ (usize) (0) => [1] (1) => [] ]"),
+            ("form2", f"{fl}![ (usize, i64) (0, 5) => [1] (1, 6) => [] ]"),
+            ("form3", f"{fl}![ (usize) => [u32] (0) => [(1, 7)] (1) => [] ]"),
+            ("form4", f"{fl}![ (usize, i64) => [u32] (0, 5) => [(1, 7)] (1, 6) => [] ]"),
+            ("empty", f"{fl}![]")]
+
+
+def macro_witness(fl, what):
+    expr = dict(macro_exprs(fl))[what]
+    sync = fl.startswith("sync_")
+    return (f"// property C16: `{expr}` builds a gdsl::{fl} graph with Send + Sync payloads; it must {'be' if sync else 'not be'} Send and Sync.\n"
+            f"// This program {'fails to compile although it must compile' if sync else 'compiles although it must be rejected'}.\n"
+            f"use gdsl::*;\nfn need<T: Send + Sync>(_: &T) {{}}\nfn main() {{\n    let g = {expr};\n    need(&g);\n    let n = g.get(&0);\n    need(&n);\n}}\n")
 
 
 def builder_exprs(fl):
@@ -155,6 +181,7 @@ def custom(C, pid, tier, seed):
             envs.append(("hook-off", dict(C.ENV)))
         tables = {}
         btables = {}
+        mtables = {}
         for name, env in envs:
             rc, out, dt = C.sh(["cargo", "build", "--offline"], cwd=os.path.join(root, "probes"), timeout=1800, env=env)
             if rc != 0 and "src/bin/borrowed.rs" in out:
@@ -169,7 +196,8 @@ def custom(C, pid, tier, seed):
             if rc != 0:
                 broken.append(("correspondence", f"probe binary failed ({name}): {out[-300:]}"))
                 continue
-            tables[name] = [l for l in out.strip().split("\n") if l and not l.startswith("B ")]
+            tables[name] = [l for l in out.strip().split("\n") if l and not l.startswith("B ") and not l.startswith("M ")]
+            mtables[name] = [l for l in out.strip().split("\n") if l.startswith("M ")]
             btables[name] = [l for l in out.strip().split("\n") if l.startswith("B ")]
     for t, why in proofs["failed"]:
         broken.append(("proof", f"theorem {t}: {why}"))
@@ -193,6 +221,15 @@ def custom(C, pid, tier, seed):
             for trait, got in (("Send", s1 == "send=1"), ("Sync", s2 == "sync=1")):
                 if got:
                     bad_builders.append((fl, what, trait, name))
+    # ---- oracle: the construction macros return graphs of their own flavour
+    bad_macros = []
+    for name, tab in mtables.items():
+        for l in tab:
+            _, fl, what, *flags = l.split(" ")
+            n_brows += 1
+            want = "1" if fl.startswith("sync_") else "0"
+            if any(f.split("=")[1] != want for f in flags):
+                bad_macros.append((fl, what, " ".join(flags), name))
     # ---- correspondence: model table vs rustc table
     mism = []
     n_rows = 0
@@ -234,6 +271,12 @@ def custom(C, pid, tier, seed):
         path = C.write_replay(pid, "oracle", f"rustc accepts `{trait}` for the gdsl::{fl} search object `{what}` holding a closure that captured an Rc ({name}); {len(bad_builders)} such verdicts in total", builder_witness(fl, what, trait).split("\n"), {"flavour": fl, "seed": seed, "tier": tier})
         os.replace(path, path[:-5] + ".rs")
         violations.append((path[:-5] + ".rs", ""))
+    for (fl, what, flags, name) in bad_macros[:2]:
+        path = C.write_replay(pid, "oracle", f"rustc says `{flags}` for the graph (and a node of it) built by `{dict(macro_exprs(fl))[what]}` ({name}); {len(bad_macros)} such verdicts in total", macro_witness(fl, what).split("\n"), {"flavour": fl, "seed": seed, "tier": tier})
+        os.replace(path, path[:-5] + ".rs")
+        violations.append((path[:-5] + ".rs", ""))
+    for b in bad_macros:
+        bad_rows.append((b[0], "macro " + b[1], "-", "-", "-", "Send+Sync", b[0].startswith("sync_"), b[3]))
     for b in bad_builders:
         bad_rows.append((b[0], b[1], "-", "-", "-", b[2], False, b[3]))
     if borrowed_bad:
@@ -249,7 +292,7 @@ def custom(C, pid, tier, seed):
                 "trusted_base": C.P.TRUSTED_BASE + ["translator tools/translate_traits.py (type-grammar parser; fails loudly on unknown constructs)", "transcription of std's auto-trait rules for Arc/Weak/Rc/RefCell/RwLock/Vec/HashMap/tuples (validated against rustc by the probe table)", "Rust's meaning of Send/Sync (the 'no data race' consequence is not modelled)"],
                 "theorems": [t for _, t in spec.get("theorems", [])], "axioms": proofs["axioms"],
                 "evaluations": (sum(len(t) for t in tables.values()) + n_brows) * 2, "distinct_nontrivial": len(rows) * 2 + 2 * len(btables.get("hook-on", [])),
-                "rule": "plus search objects (bfs/dfs/pfs/orderings of the four flavours, for_each and filter) holding a closure that captured an Rc: never Send or Sync (value probe by method resolution); plus one must-compile program with borrowed (non-'static) Send + Sync payloads for every sync type; rows = 4 flavours x {Node, Edge, Graph} x 4^3 payload witnesses (Send+Sync / Send only = PhantomData<Cell> / Sync only = PhantomData<MutexGuard> / neither = PhantomData<Rc>) x {Send, Sync}; each row is one query to rustc's trait solver, read at run time through an inherent-const probe; all distinct, all non-trivial (a generic obligation each).",
+                "rule": "plus the graph and a node handle returned by every form of the four construction macros (Send + Sync exactly for the sync flavours); plus search objects (bfs/dfs/pfs/orderings of the four flavours, for_each and filter) holding a closure that captured an Rc: never Send or Sync (value probe by method resolution); plus one must-compile program with borrowed (non-'static) Send + Sync payloads for every sync type; rows = 4 flavours x {Node, Edge, Graph} x 4^3 payload witnesses (Send+Sync / Send only = PhantomData<Cell> / Sync only = PhantomData<MutexGuard> / neither = PhantomData<Rc>) x {Send, Sync}; each row is one query to rustc's trait solver, read at run time through an inherent-const probe; all distinct, all non-trivial (a generic obligation each).",
                 "samples": rows[:3] + rows[200:203], "traces_validated_against_impl": n_rows, "exhaustive": True,
                 "correspondence_mismatches": len(mism), "oracle_failures": len(bad_rows), "broken_obligations": [w for _, w in broken],
                 "probe_builds": list(tables.keys())})
